@@ -71,6 +71,12 @@ def containers(elems, with_batch=True):
             yield BatchResult([BatchItem(0, BatchItemStatus.STARTED), BatchItem(1, BatchItemStatus.SUCCEEDED, e),
                                ], CompletionReason.MIN_SUCCESSFUL_REACHED)
         yield BatchResult([BatchItem(0, BatchItemStatus.FAILED, None, err2)], CompletionReason.ALL_COMPLETED)
+        # error objects whose fields are empty but not None (a bare `raise ValueError()` gives message "").  An error
+        # object with *every* field None is left out: it is indistinguishable from "no error" by design (cf. C20).
+        for eo in (ErrorObject("", "ValueError", None, None), ErrorObject("", "", "", []),
+                   ErrorObject("m", None, "", None), ErrorObject(None, "T", None, [])):
+            yield BatchResult([BatchItem(0, BatchItemStatus.FAILED, None, eo), BatchItem(1, BatchItemStatus.SUCCEEDED, 1)],
+                              CompletionReason.FAILURE_TOLERANCE_EXCEEDED)
 
 
 def lookalikes(elems):
@@ -272,7 +278,10 @@ def gen_chunk(arg):
     L = leaves()
     R = reduced_leaves()
     if which == "depth1":
-        vals = list(L) + list(containers(L))
+        # ... plus long payloads (> 1 KB and > 64 KB of text): plain lists, nested lists, long strings, wide dicts
+        long_vals = [list(range(400)), [list(range(400)), ["x"] * 300], {"k": list(range(400))}, ("y" * 70_000,),
+                     ["z" * 2000], {str(i): i for i in range(300)}, [[i, str(i), None, True, 1.5] for i in range(200)]]
+        vals = list(L) + list(containers(L)) + long_vals
     elif which == "depth2":
         d1 = list(containers(R, with_batch=True))
         base = [x for i, x in enumerate(d1) if i % nchunks == k]
@@ -330,7 +339,7 @@ def run(ctx):
                   "{'a','t','v','','0'} and BatchResult of <=2 items: full at depth 1, depth 2 over a 13-leaf reduced alphabet "
                   "and (single-wrap) over the full alphabet, depth 3 over 7 leaves in thorough; every envelope look-alike "
                   "{'t': tag, 'v': x} for 17 tags (valid, unknown, non-string); 26-value rejection alphabet (non-string keys, "
-                  "sets, objects, 5000-digit ints, bytearray/memoryview)",
+                  "sets, objects, 5000-digit ints, bytearray/memoryview); 7 long payloads (1 KB .. 70 KB of text)",
         "explanation": "states = values enumerated; each is pushed through serialize/deserialize (module functions) and "
                        "ExtendedTypeSerDes (4 function applications) and compared with typed, NaN- and signed-zero-aware equality",
     }
